@@ -142,6 +142,38 @@ Proof.
 Qed.
 Print Assumptions C10_error_reported.
 
+(* Duplex: on a connection that carries both directions of the same protocol
+   id, each (id, direction) stream is reassembled on its own - whatever
+   segments of the other direction (or of other protocols) are interleaved,
+   and wherever: they do not reach this instance and do not disturb it. *)
+Lemma key_eqb_refl k : key_eqb k k = true.
+Proof. unfold key_eqb. rewrite N.eqb_refl. destruct (snd k); reflexivity. Qed.
+
+Theorem C10_demux_other : forall w1 w2 k k' p, key_eqb k' k = false ->
+  demux (w1 ++ (k', p) :: w2) k = demux (w1 ++ w2) k.
+Proof.
+  intros w1 w2 k k' p H. unfold demux. rewrite !filter_app. cbn [filter fst]. rewrite H. reflexivity.
+Qed.
+
+Theorem C10_demux_own : forall w1 w2 k p,
+  demux (w1 ++ (k, p) :: w2) k = demux w1 k ++ p :: demux w2 k.
+Proof.
+  intros w1 w2 k p. unfold demux. rewrite filter_app. cbn [filter fst]. rewrite key_eqb_refl, map_app. reflexivity.
+Qed.
+
+Theorem C10_duplex : forall accepts cap wire k items,
+  Forall (good accepts cap) items -> Forall (fun s => s <> []) (demux wire k) ->
+  concat (demux wire k) = concat (map enc items) ->
+  recv_mux accepts cap wire k = mkR (map msg_of items) [] Running.
+Proof. intros. unfold recv_mux. apply C10_reassembly; assumption. Qed.
+Print Assumptions C10_duplex.
+
+Example C10_duplex_ex :
+  let wire : list (key * bytes) := [((77%N, true), [130; 1]%N); ((77%N, false), [129]%N); ((77%N, true), [65; 170]%N); ((77%N, false), [2]%N)] in
+  delivered (recv_mux h_accepts max_buf wire (77%N, false)) = [(2%N, [129; 2]%N)] /\
+  delivered (recv_mux h_accepts max_buf wire (77%N, true)) = [(1%N, [130; 1; 65; 170]%N)].
+Proof. vm_compute. split; reflexivity. Qed.
+
 Theorem C10_error_now : forall accepts cap fuel buf acc, parse_full buf = Bad ->
   drain accepts cap (S fuel) buf acc = mkR acc buf Failed.
 Proof. exact drain_bad. Qed.
